@@ -15,6 +15,7 @@ package main
 // which follows /repo bb6ac26) and mp.implied; d17.allocfit ties the allocation cost model to the measurement.
 
 import (
+	"regexp"
 	"encoding/hex"
 	"fmt"
 	"math"
@@ -132,6 +133,8 @@ const c17mPerHeader = 120000
 //	sized-by-unverified-length-header the input holds such headers and the allocation is beyond even that: a
 //	                                  buffer sized by the announced length itself (what 9555bea / 12d5e4f repaired)
 //	quadratic-in-nesting-depth        nested >= 64 deep and within the bound times the depth
+//	decimal-expansion-of-huge-exponent a number text with an exponent of magnitude >= 10^4 and the allocation within 64 bytes
+//	                                  per unit of exponent (set hash: big.Float.String())
 //	unexpected                        anything else
 func c17mAllocCause(b []byte, alloc, limit uint64) string {
 	if h := c17mForged(b); h > 0 {
@@ -143,7 +146,27 @@ func c17mAllocCause(b []byte, alloc, limit uint64) string {
 	if d := c17mDepth(b); d >= 64 && alloc <= limit*uint64(d) {
 		return "quadratic-in-nesting-depth"
 	}
+	if e := c17mSumExponents(b); e >= 10000 && alloc <= 64*e+limit {
+		// the same root cause as the JSON half's finding: a number that travels as text with a large decimal
+		// (e) or binary (p) exponent is cheap to parse and is expanded in decimal when a set hashes it
+		return "decimal-expansion-of-huge-exponent"
+	}
 	return "unexpected"
+}
+
+var c17mExpRe = regexp.MustCompile(`[0-9a-fA-F.][eEpP][+-]?([0-9]{1,18})`)
+
+// sum of the magnitudes of the decimal / binary exponents spelled in the document's number texts
+func c17mSumExponents(b []byte) uint64 {
+	var sum uint64
+	for _, m := range c17mExpRe.FindAllSubmatch(b, -1) {
+		var e uint64
+		fmt.Sscanf(string(m[1]), "%d", &e)
+		if e < 1<<31 {
+			sum += e
+		}
+	}
+	return sum
 }
 
 // bb6: the tree holds a refinement map that states both length bounds (the inputs /repo bb6ac26 is about)
